@@ -1079,6 +1079,56 @@ def gen_dispatch(pb: ast.AST) -> str:
     return "\n".join(out) + "\n"
 
 
+
+def gen_lp_rows(an: ast.AST) -> str:
+    """`LinearProgramExtractor.extract_constraints`: the loop body that turns one constraint `expr ⋈ 0` into a row —
+    which matrix the row goes to and where signs are flipped — translated into a table."""
+    cls = next((n for n in ast.walk(an) if isinstance(n, ast.ClassDef) and n.name == "LinearProgramExtractor"), None)
+    if cls is None:
+        raise TranslateError("class LinearProgramExtractor not found")
+    fn = next((n for n in cls.body if isinstance(n, ast.FunctionDef) and n.name == "extract_constraints"), None)
+    if fn is None:
+        raise TranslateError("extract_constraints not found")
+    loop = next((st for st in fn.body if isinstance(st, ast.For) and _u(st.iter) == "problem.constraints"), None)
+    if loop is None or _u(loop.target) != "constraint":
+        raise TranslateError("extract_constraints: constraint loop not found")
+    body = list(loop.body)
+    if len(body) != 4 or not (isinstance(body[0], ast.If) and _u(body[0].test) == "not is_linear(constraint.expr)"
+                              and isinstance(body[0].body[0], ast.Raise)):
+        raise TranslateError(f"extract_constraints: loop body {[_u(x)[:50] for x in body]}")
+    if _u(body[1]) != "row = extract_all_linear_coefficients(constraint.expr, var_index, n)":
+        raise TranslateError(f"extract_constraints: row statement {_u(body[1])!r}")
+    rhs_t = _u(body[2])
+    if rhs_t not in ("rhs = -extract_constant_term(constraint.expr)", "rhs = extract_constant_term(constraint.expr)"):
+        raise TranslateError(f"extract_constraints: rhs statement {rhs_t!r}")
+    cases = []
+    cur = body[3]
+    while isinstance(cur, ast.If):
+        t = _u(cur.test)
+        if not t.startswith("constraint.sense == "):
+            raise TranslateError(f"extract_constraints: sense test {t!r}")
+        sense = ast.literal_eval(cur.test.comparators[0])
+        b = [_u(x) for x in cur.body]
+        opts = {("eq_rows.append(row)", "eq_rhs.append(rhs)"): ("eq", False, False),
+                ("ub_rows.append(row)", "ub_rhs.append(rhs)"): ("ub", False, False),
+                ("ub_rows.append(-row)", "ub_rhs.append(-rhs)"): ("ub", True, True),
+                ("eq_rows.append(-row)", "eq_rhs.append(-rhs)"): ("eq", True, True)}
+        if tuple(b) not in opts:
+            raise TranslateError(f"extract_constraints: branch {sense!r}: {b}")
+        cases.append((sense,) + opts[tuple(b)])
+        if len(cur.orelse) == 1 and isinstance(cur.orelse[0], ast.If):
+            cur = cur.orelse[0]
+        elif not cur.orelse:
+            break
+        else:
+            raise TranslateError("extract_constraints: sense chain has a non-if else")
+    bb = lambda v: "true" if v else "false"
+    return ("structure LPRowCase where\n  sense : String\n  side : String\n  negRow : Bool\n  negRhs : Bool\n  deriving DecidableEq, Repr\n"
+            "def lpRowCases : List LPRowCase := [" + ", ".join(
+                f"⟨{json.dumps(s_)}, {json.dumps(side)}, {bb(nr)}, {bb(nh)}⟩" for s_, side, nr, nh in cases) + "]\n"
+            f"def lpRhsIsNegatedConstant : Bool := {bb(rhs_t.startswith('rhs = -'))}\n")
+
+
 HEADER = """/-
   GENERATED by harness/gen_tables.py from the optyx sources — do not edit.
   Regenerated before every build; the theorems that mention these definitions are
@@ -1126,12 +1176,20 @@ def main(repo: str, outdir: str, dry: bool = False) -> int:
 
     def f_glue():
         return (HEADER + "namespace Optyx.Generated\n\n" + gen_solver_glue(src("solvers/scipy_solver.py"))
-                + gen_make_constraint(src("constraints.py")) + gen_lp_glue(src("solvers/lp_solver.py"))
                 + "\nend Optyx.Generated\n")
+
+    def f_apiglue():
+        return (HEADER + "namespace Optyx.Generated\n\n" + gen_make_constraint(src("constraints.py"))
+                + "\nend Optyx.Generated\n")
+
+    def f_lpglue():
+        return (HEADER + "namespace Optyx.Generated\n\n" + gen_lp_glue(src("solvers/lp_solver.py"))
+                + gen_lp_rows(src("analysis.py")) + "\nend Optyx.Generated\n")
 
     changed, errors, h = False, {}, hashlib.sha256()
     for fname, make in (("GradRules", f_rules), ("Tables", f_tables), ("Closures", f_closures), ("SolverGlue", f_glue),
-                        ("JacRow", f_jacrow), ("InitPoint", f_init), ("Dispatch", f_dispatch)):
+                        ("JacRow", f_jacrow), ("InitPoint", f_init), ("Dispatch", f_dispatch),
+                        ("ApiGlue", f_apiglue), ("LPGlue", f_lpglue)):
         path = os.path.join(outdir, fname + ".lean")
         try:
             text = make()
